@@ -185,6 +185,15 @@ func (s *dispatchSys) shapeBytes(sh string, peer proto.PeerAddress) []byte {
 		return append([]byte{0x40, 0x00, 0x00, 0x08}, s.fill(8, "cd")...)
 	case "cdBoundCookie":
 		return append([]byte{0x40, 0x00, 0x00, 0x14, 0x21, 0x12, 0xa4, 0x42}, s.fill(16, "cd")...)
+	case "cdOversize":
+		return append([]byte{0x55, 0x55, 0x07, 0xd0}, s.fill(2000, "big")...)
+	case "stunOversize":
+		b := append([]byte{0x00, 0x01, 0x06, 0xa4, 0x21, 0x12, 0xa4, 0x42}, s.fill(12+1700, "bigstun")...)
+		// one unknown comprehension-optional attribute that fills the body
+		binary.BigEndian.PutUint16(b[20:22], 0x8099)
+		binary.BigEndian.PutUint16(b[22:24], 1696)
+
+		return b
 	case "cdUnboundCookie":
 		return append([]byte{0x55, 0x55, 0x00, 0x14, 0x21, 0x12, 0xa4, 0x42}, s.fill(16, "cd")...)
 	case "stunBadCookie":
@@ -527,6 +536,8 @@ func (s *dispatchSys) doClient(a map[string]any, wait func()) ([]Obs, error) {
 		msgs = [][]byte{ind(stun.MethodConnectionAttempt, proto.ConnectionID(5))}
 	case "attemptNoID":
 		msgs = [][]byte{ind(stun.MethodConnectionAttempt, pa)}
+	case "attemptShortID": // CONNECTION-ID shorter than four bytes
+		msgs = [][]byte{ind(stun.MethodConnectionAttempt, pa, stun.RawAttribute{Type: stun.AttrConnectionID, Value: []byte{1, 2}})}
 	case "attemptOK":
 		msgs = [][]byte{ind(stun.MethodConnectionAttempt, pa, proto.ConnectionID(uint32(1000+s.step)))} //nolint:gosec
 	case "cdKnown":
